@@ -122,6 +122,20 @@ func atomType(a string) reflect.Type {
 		return reflect.TypeOf(OUT2{})
 	case "erS":
 		return reflect.TypeOf(ErS{})
+	case "aT0":
+		return reflect.ArrayOf(2, univ.Type("T0"))
+	case "aV0":
+		return reflect.ArrayOf(2, reflect.TypeOf(univ.V0{}))
+	case "aBig":
+		return reflect.TypeOf([1 << 62]struct{}{})
+	case "aPB":
+		return reflect.TypeOf((*[1 << 20]*[1 << 45]byte)(nil)).Elem()
+	case "fnT":
+		return reflect.TypeOf((func() *univ.T0)(nil))
+	case "mpT":
+		return reflect.TypeOf(map[string]*univ.T0(nil))
+	case "chT":
+		return reflect.TypeOf((chan *univ.T0)(nil))
 	case "sT0":
 		return reflect.SliceOf(univ.Type("T0"))
 	case "ssT0":
